@@ -269,7 +269,9 @@ func (m *vMonC17) listings(h *vHist, kind string) {
 	}
 	for _, f := range filters {
 		want := m.expected(f)
-		for _, limit := range []uint64{0, 1, 2, 3} {
+		// (page sizes: small ones that cut the result into pages, and the ways
+		// of asking for "everything": 1000, 2^63-1, 2^63, 2^64-1)
+		for _, limit := range []uint64{0, 1, 2, 3, 1000, 1<<63 - 1, 1 << 63, 1<<64 - 1} {
 			for _, mode := range []string{"key", "offset"} {
 				if f.Serial != "" && (limit > 1 || mode == "offset") {
 					continue // single lookup: pagination does not apply
@@ -542,7 +544,7 @@ func vRunC17History(h *vHist, steps int, allowZero bool) {
 
 func TestVerif_C17(t *testing.T) {
 	res := vs.NewResult("C17", "exploration",
-		"create/revoke histories by 3 owners with serials {0,1,127,128,255,256,65535,65536,2^63,2^64,2^64+1,2^159, random 160-bit, 2^160,2^160+1,2^160+256,2^200, 21..24 octets behind one common 20-octet head, random 256-bit} (big-endian encodings prefix one another), duplicates, foreign CNs, certificates of another account resubmitted byte for byte under the own name, foreign and forged signers; after every tx an append-only model is compared with keeper lookups for every (owner,serial) ever named and with the real gRPC querier for every filter shape (none/owner/owner+serial x state) x page sizes {0,1,2,3} x {key,offset} pagination followed to the end, and with the keeper's own iteration entry points (all / by state / by owner / by owner and state). distinct = (message kind, result, registry size, right signer)")
+		"create/revoke histories by 3 owners with serials {0,1,127,128,255,256,65535,65536,2^63,2^64,2^64+1,2^159, random 160-bit, 2^160,2^160+1,2^160+256,2^200, 21..24 octets behind one common 20-octet head, random 256-bit} (big-endian encodings prefix one another), duplicates, foreign CNs, certificates of another account resubmitted byte for byte under the own name, foreign and forged signers; after every tx an append-only model is compared with keeper lookups for every (owner,serial) ever named and with the real gRPC querier for every filter shape (none/owner/owner+serial x state) x page sizes {0,1,2,3,1000,2^63-1,2^63,2^64-1} x {key,offset} pagination followed to the end, and with the keeper's own iteration entry points (all / by state / by owner / by owner and state). distinct = (message kind, result, registry size, right signer)")
 	res.Assume("chain driven at the ABCI boundary; the querier is called in-process with the deliver-state context (no gRPC transport)")
 	for _, f := range []string{"created", "revoked", "duplicate_create_rejected", "foreign_create_rejected", "double_revoke_rejected", "revoke_unknown_rejected", "foreign_revoke_rejected", "listings", "keeper_listings",
 		"created_serial_class:zero", "created_serial_class:1byte", "created_serial_class:upto64bit", "created_serial_class:above64bit", "created_serial_class:above160bit"} {
